@@ -89,6 +89,7 @@ def run(ctx):
         if ctx.mine(sorted(DJANGO_FUNCS).index(fname)):
             SC.judge(ctx, scalar.simple_filter_for(rng, p, fname), rng, select,
                      findings.django_semantic_triggers, "coverage", cap=200, extra_case=case_extra, profile=p)
+    SC.math_of_int_lane(ctx, ctx.rng("mathint"), select, findings.django_semantic_triggers, extra_case=case_extra, profile=p)
     SC.big_list_lane(ctx, ctx.rng("biglist"), select, findings.django_semantic_triggers,
                      ctx.pick(6, 60), profile=p)
     SC.machine_lane(ctx, ctx.rng("machine"), select, findings.django_semantic_triggers,
